@@ -158,7 +158,8 @@ class H:
         for i in range(len(xs)):
             for j in range(i + 1, len(xs)):
                 d = xs[i] - xs[j]
-                self.assume(sym.Or(d >= gap, d <= -gap) if self.sym else abs(d) >= gap)
+                # (the solver side is 0.1% stricter so that a boundary model still passes the float check of a replay)
+                self.assume(sym.Or(d >= gap * 1.001, d <= -gap * 1.001) if self.sym else abs(d) >= gap)
 
     # ------------------------------------------------------------------ helpers usable by oracles in both modes
     def exp(self, x):
